@@ -74,7 +74,12 @@ Fixpoint until_file_id (fuel : nat) (c : dcfg) (s : dstate) : outcome dstate :=
   | Some _ => Ok s
   | None =>
     if peekfileid_bounded && (h_datasize (s_header s) <=? s_cur s) then Err E_NotFIT else
-    match fuel with O => OutOfFuel | S f => do s <- decode_message c s; until_file_id f c s end
+    match fuel with
+    | O => OutOfFuel
+    | S f => do s1 <- decode_message c s;
+             (* a message that ran past the end of the sequence is reported (fix: 7fda71f; read from the source) *)
+             if peekfileid_checks_overrun && (h_datasize (s_header s1) <? s_cur s1) then Err E_NotFIT else until_file_id f c s1
+    end
   end.
 
 (* CheckIntegrity: checksums forced on; counts complete sequences; a clean end is io.EOF exactly at a sequence boundary *)
